@@ -249,6 +249,7 @@ func c06Run(u *Universe, wc *WorkerCache, seq []c06Op) (viol []string, outcome s
 		return 0
 	}, 20000, nil, main)
 	viol = append(viol, resultProblems(res)...)
+	viol = append(viol, raceProblems(res)...)
 	if res.Horizon {
 		viol = append(viol, "livelock:horizon: the sequence did not finish within 20000 scheduling points")
 	}
